@@ -46,7 +46,7 @@ template<class T> requires __big<T>::v struct vector<T> : __bigflat<T, __cap<T>:
   typedef __iter<F, T> iterator; typedef __iter<const F, const T> const_iterator; typedef size_t size_type; typedef T value_type;
   vector() {}
   vector(initializer_list<T> l) { for (const T* q = l.begin(); q != l.end(); ++q) push_back(*q); }
-  void push_back(const T& x) { __CPROVER_assert(n < VCAP, "ministl: vector capacity (model bound)"); for (int k = 0; k < VCAP; k++) if (k == n) new (p[k]) T(x); n++; }
+  void push_back(const T& x) { (__CPROVER_assert(n < VCAP,"ministl: vector capacity (model bound)"), __CPROVER_assume(n < VCAP)); for (int k = 0; k < VCAP; k++) if (k == n) new (p[k]) T(x); n++; }
   void pop_back() { __CPROVER_assert(n > 0, "ministl: pop_back on empty vector (UB)"); n--; }
   void clear() { n = 0; }
   T& back() { __CPROVER_assert(n > 0, "ministl: back() on empty vector (UB)"); return __at(n - 1); }
@@ -54,8 +54,9 @@ template<class T> requires __big<T>::v struct vector<T> : __bigflat<T, __cap<T>:
   T& operator[](size_t i) { __CPROVER_assert(i < (size_t)n, "ministl: vector index out of range (UB)"); return __at((long)i); }
   const T& operator[](size_t i) const { __CPROVER_assert(i < (size_t)n, "ministl: vector index out of range (UB)"); return __at((long)i); }
   size_t size() const { return n; } bool empty() const { return n == 0; }
-  void reserve(size_t k) { __CPROVER_assert(k <= (size_t)VCAP, "ministl: vector capacity (model bound)"); } size_t capacity() const { return VCAP; }
+  void reserve(size_t k) { (__CPROVER_assert(k <= (size_t)VCAP,"ministl: vector capacity (model bound)"), __CPROVER_assume(k <= (size_t)VCAP)); } size_t capacity() const { return VCAP; }
   iterator begin() { return iterator(this, 0); } iterator end() { return iterator(this, n); }
+  typedef __riter<F, T> reverse_iterator; reverse_iterator rbegin() { return reverse_iterator(this, n); } reverse_iterator rend() { return reverse_iterator(this, 0); }
   const_iterator begin() const { return const_iterator(this, 0); } const_iterator end() const { return const_iterator(this, n); }
   // erase / insert of one element: the element objects stay where they are, their contents move (constant indices only)
   iterator erase(iterator at) {
@@ -64,7 +65,7 @@ template<class T> requires __big<T>::v struct vector<T> : __bigflat<T, __cap<T>:
     n--; return at;
   }
   iterator insert(iterator at, const T& x) {
-    __CPROVER_assert(n < VCAP, "ministl: vector capacity (model bound)"); __CPROVER_assert(at.i >= 0 && at.i <= n, "ministl: insert position out of range (UB)");
+    (__CPROVER_assert(n < VCAP,"ministl: vector capacity (model bound)"), __CPROVER_assume(n < VCAP)); __CPROVER_assert(at.i >= 0 && at.i <= n, "ministl: insert position out of range (UB)");
     T tmp(x);
     for (int k = VCAP - 1; k > 0; k--) if (k > at.i && k <= n) new (p[k]) T(*p[k - 1]);
     for (int k = 0; k < VCAP; k++) if (k == at.i) new (p[k]) T(tmp);
@@ -104,7 +105,7 @@ template<class T> requires __aform<T>::v struct vector<T> : __flat<T, __cap<T>::
   T __get(long i) const { T r = u.d[0]; for (int k = 1; k < VCAP; k++) if (i == k) r = u.d[k]; return r; }
   vector() {}
   vector(initializer_list<T> l) { for (const T* q = l.begin(); q != l.end(); ++q) push_back(*q); }
-  void push_back(const T& x) { __CPROVER_assert(n < VCAP, "ministl: vector capacity (model bound)"); for (int k = 0; k < VCAP; k++) if (k == n) new (&u.d[k]) T(x); n++; }
+  void push_back(const T& x) { (__CPROVER_assert(n < VCAP,"ministl: vector capacity (model bound)"), __CPROVER_assume(n < VCAP)); for (int k = 0; k < VCAP; k++) if (k == n) new (&u.d[k]) T(x); n++; }
   void pop_back() { __CPROVER_assert(n > 0, "ministl: pop_back on empty vector (UB)"); n--; }
   void clear() { n = 0; }
   T& back() { __CPROVER_assert(n > 0, "ministl: back() on empty vector (UB)"); return __at(n - 1); }
@@ -113,13 +114,14 @@ template<class T> requires __aform<T>::v struct vector<T> : __flat<T, __cap<T>::
   T& operator[](size_t i) { __CPROVER_assert(i < (size_t)n, "ministl: vector index out of range (UB)"); return __at((long)i); }
   const T& operator[](size_t i) const { __CPROVER_assert(i < (size_t)n, "ministl: vector index out of range (UB)"); return __at((long)i); }
   size_t size() const { return n; } bool empty() const { return n == 0; }
-  void reserve(size_t k) { __CPROVER_assert(k <= (size_t)VCAP, "ministl: vector capacity (model bound)"); } size_t capacity() const { return VCAP; }
+  void reserve(size_t k) { (__CPROVER_assert(k <= (size_t)VCAP,"ministl: vector capacity (model bound)"), __CPROVER_assume(k <= (size_t)VCAP)); } size_t capacity() const { return VCAP; }
   iterator begin() { return iterator(this, 0); } iterator end() { return iterator(this, n); }
+  typedef __riter<F, T> reverse_iterator; reverse_iterator rbegin() { return reverse_iterator(this, n); } reverse_iterator rend() { return reverse_iterator(this, 0); }
   const_iterator begin() const { return const_iterator(this, 0); } const_iterator end() const { return const_iterator(this, n); }
   // insert [f,l) before at: shift the tail up by m (highest index first, reading positions not yet overwritten), then copy the new elements in
   template<class It> void insert(iterator at, It f, It l) {
     int a = at.i; int m = (int)(l - f);
-    __CPROVER_assert(a >= 0 && a <= n, "ministl: insert position outside vector (UB)"); __CPROVER_assert(m >= 0 && n + m <= VCAP, "ministl: vector capacity (model bound)");
+    __CPROVER_assert(a >= 0 && a <= n, "ministl: insert position outside vector (UB)"); (__CPROVER_assert(m >= 0 && n + m <= VCAP,"ministl: vector capacity (model bound)"), __CPROVER_assume(m >= 0 && n + m <= VCAP));
     for (int j = VCAP - 1; j >= 0; j--) if (m > 0 && j >= a + m && j < n + m) new (&u.d[j]) T(__get(j - m));
     for (int j = 0; j < VCAP; j++) if (j >= a && j < a + m) new (&u.d[j]) T(__itget(f, j - a));
     n += m; }
@@ -159,7 +161,7 @@ template<class K, class V> requires __bigmapv<V>::v struct map<K, V> {
   reverse_iterator rbegin() { return reverse_iterator(this, n); } reverse_iterator rend() { return reverse_iterator(this, 0); }
   iterator find(const K& key) { return __has(key) ? iterator(this, lower(key)) : end(); }
   bool contains(const K& key) const { return __has(key); } size_t count(const K& key) const { return __has(key) ? 1 : 0; } bool empty() const { return n == 0; } size_t size() const { return n; }
-  void insert(const slot& s) { if (__has(s.first)) return; __CPROVER_assert(n < MCAP, "ministl: map capacity (model bound)"); for (int k = 0; k < MCAP; k++) if (k == n) new (p[k]) slot(s); n++; }
+  void insert(const slot& s) { if (__has(s.first)) return; (__CPROVER_assert(n < MCAP,"ministl: map capacity (model bound)"), __CPROVER_assume(n < MCAP)); for (int k = 0; k < MCAP; k++) if (k == n) new (p[k]) slot(s); n++; }
   template<class A2, class B2> void insert(const pair<A2, B2>& s) { insert(slot(K(s.first), V(s.second))); }
   V& operator[](const K& key) { if (!__has(key)) insert(slot(key, V())); slot* r = p[0]; for (int k = 1; k < MCAP; k++) if (k < n && __eqk(p[k]->first, key)) r = p[k]; return r->second; }
   V& at(const K& key) { __CPROVER_assert(__has(key), "ministl: map::at key not found (throws)"); return (*this)[key]; }
